@@ -20,9 +20,12 @@ ENGINES = {
 
 H3_STUB = {
     "real": ["server (partition, replicator, metadata, fsm, api, cursors, groups, activity, failover, propagation; instrumented mechanically)",
-             "server/commitlog (instrumented)", "server/protocol", "server/encryption", "casbin", "raft-boltdb (log store of the Raft stub)", "file system of the sandbox kernel"],
+             "server/commitlog (instrumented)", "server/telemetry (instrumented)", "server/protocol", "server/encryption", "casbin", "raft-boltdb (log store of the Raft stub)", "file system of the sandbox kernel",
+             "Server.Start / startAPIServer: the tree's own code minus TCP listener, gRPC Serve loop and signal handler (derived at build time by instr/derive.go)",
+             "config parsing (NewConfig, YAML + environment) in C19"],
     "stub": ["NATS server + nats.go client: simulated bus with NATS subject, queue-group and per-connection FIFO semantics (fakes/natsgo)",
-             "hashicorp/raft + nats-on-a-log: ordered-commit stub with seeded apply lag, leadership changes, snapshots (fakes/raft) - Raft itself is not under test",
+             "hashicorp/raft + nats-on-a-log: ordered-commit stub with one committed log, seeded apply lag, elections among members that reach a majority, snapshots with log compaction, restart from snapshot + replay (fakes/raft) - Raft itself is not under test",
+             "HTTP transport (C19): recorder in place of http.DefaultTransport",
              "nuid: deterministic counter", "gRPC transport, TLS, signal delivery: bypassed (handlers called in-process)",
              "goroutine scheduling (simrt, seeded)", "clock and timers (testing/synctest fake clock)"],
 }
